@@ -299,14 +299,19 @@ EasyC(tv) == LET W == {v \in Vis : Compat(v, tv)} IN
   IF D(tv) = "bool" THEN {C(o, <<AV(a)>>, NoAt, 0) : o \in Ops \cap {"Not", "Identity"}, a \in Pick(W)}
   ELSE {C(o, <<AV(a)>>, NoAt, 0) : o \in Pick(Ops \cap ({"Neg", "Abs", "Sign", "Identity"} \cup IF D(tv) = "f32" THEN {"Relu"} ELSE {})), a \in Pick(W)}
        \cup {C(q[1], <<AV(q[2]), AL(q[3])>>, NoAt, 0) : q \in Pick({q \in (Ops \cap {"Add", "Sub", "Mul", "Max", "Min"}) \X W \X DOMAIN L : q[3] \in SLits(D(q[2]))})}
-CallOp(c, os) ==
+\* NOTE (TLC): a LET directly inside an action formula is re-evaluated at every use; the new state is therefore computed
+\* by state-level operators (XxxNew, LETs cached) and bound once with  \E n \in {XxxNew(..)}.
+CallOpNew(c, os) ==
   LET sig == Sigs[c.op]
       st == AdaptArgs(sig, c.args, 1, St0(Cur, vals, cache, gn))
       ot == Transp(Results(c))
       e == EmitNode(c.op, c.op, "", st, Len(ot), os, Tk(c.args), ot, <<>>)
       stmt == Stmt(nc, "op", c.op, c.args, Pdt(sig, c.args), c.at, e.ov, os, c.pos, <<>>, 0, "", "")
-  IN /\ vals' = e.vals /\ cache' = e.cache /\ gn' = e.gn /\ nc' = nc + 1
-     /\ frames' = SetCur([Cur EXCEPT !.nodes = e.nodes, !.nn = e.nn, !.stmts = Append(@, stmt)])
+  IN [vals |-> e.vals, cache |-> e.cache, gn |-> e.gn,
+      frames |-> SetCur([Cur EXCEPT !.nodes = e.nodes, !.nn = e.nn, !.stmts = Append(@, stmt)])]
+CallOp(c, os) ==
+  \E n \in {CallOpNew(c, os)} :
+     /\ vals' = n.vals /\ cache' = n.cache /\ gn' = n.gn /\ nc' = nc + 1 /\ frames' = n.frames
      /\ UNCHANGED <<scope, fidc, stage, flags, out>>
 DoCallOp == /\ MayCall
             /\ \E o \in Pick(Ops) : \E c \in Pick(IF Sim /\ Target # 0 /\ RandomElement(1..2) = 1 THEN EasyC(Target) ELSE Cands(o)) : Valid(c) /\
@@ -343,21 +348,23 @@ CloseThen(r) ==
   /\ frames' = SetCur(NewFrame("else", [Cur.pend EXCEPT !.blk = Blk(<<>>, Cur.stmts, <<r>>, Cur.nodes)]))
   /\ fidc' = fidc + 1
   /\ UNCHANGED <<scope, cache, nc, gn, stage, flags, out>>
+CloseElseNew(r) ==
+  LET tb == Cur.pend.blk
+      tr == tb.res[1]
+      c == Cur.pend.a
+      vals2 == RenameV(vals, r, "e" \o ToString(Cur.pend.k))
+      eb == Blk(<<>>, Cur.stmts, <<r>>, Cur.nodes)
+      args == <<AV(c)>>
+      st == AdaptArgs(Sigs["If"], args, 1, St0(Parent, vals2, cache, gn))
+      ot == <<[k \in 1..K |-> IF vals[c].ev[k].data[1] # 0 THEN vals[tr].ev[k] ELSE vals[r].ev[k]]>>
+      e == EmitNode("If", "If", "", st, 1, DefSpec, Tk(args) /\ vals[tr].tk /\ vals[r].tk, ot, <<tb.g, eb.g>>)
+      stmt == Stmt(Cur.pend.k, "if", "If", args, <<"">>, NoAt, e.ov, DefSpec, 0, <<StmtBlk(tb), StmtBlk(eb)>>, 0, "", "")
+  IN [ok |-> \A k \in 1..K : SameTS(vals[tr].ev[k], vals[r].ev[k]),
+      vals |-> e.vals, cache |-> e.cache, gn |-> e.gn,
+      frames |-> PopTo([Parent EXCEPT !.nodes = e.nodes, !.nn = e.nn, !.stmts = Append(@, stmt)])]
 CloseElse(r) ==
   /\ stage = "build" /\ Cur.kind = "else" /\ Len(scope) = Cur.sd /\ r \in Produced
-  /\ LET tb == Cur.pend.blk
-         tr == tb.res[1]
-         c == Cur.pend.a
-     IN /\ \A k \in 1..K : SameTS(vals[tr].ev[k], vals[r].ev[k])
-        /\ LET vals2 == RenameV(vals, r, "e" \o ToString(Cur.pend.k))
-               eb == Blk(<<>>, Cur.stmts, <<r>>, Cur.nodes)
-               args == <<AV(c)>>
-               st == AdaptArgs(Sigs["If"], args, 1, St0(Parent, vals2, cache, gn))
-               ot == <<[k \in 1..K |-> IF vals[c].ev[k].data[1] # 0 THEN vals[tr].ev[k] ELSE vals[r].ev[k]]>>
-               e == EmitNode("If", "If", "", st, 1, DefSpec, Tk(args) /\ vals[tr].tk /\ vals[r].tk, ot, <<tb.g, eb.g>>)
-               stmt == Stmt(Cur.pend.k, "if", "If", args, <<"">>, NoAt, e.ov, DefSpec, 0, <<StmtBlk(tb), StmtBlk(eb)>>, 0, "", "")
-           IN /\ vals' = e.vals /\ cache' = e.cache /\ gn' = e.gn
-              /\ frames' = PopTo([Parent EXCEPT !.nodes = e.nodes, !.nn = e.nn, !.stmts = Append(@, stmt)])
+  /\ \E n \in {CloseElseNew(r)} : n.ok /\ vals' = n.vals /\ cache' = n.cache /\ gn' = n.gn /\ frames' = n.frames
   /\ UNCHANGED <<scope, nc, fidc, stage, flags, out>>
 
 \* Loop(trip, True, init): body (it, cn, st) -> (Identity(cn), new st [, scan output])
@@ -372,33 +379,36 @@ OpenLoop(trip, init) ==
         /\ frames' = Append(frames, NewFrame("loop", [NoPend EXCEPT !.k = nc, !.a = init, !.trip = trip, !.ins = <<b + 1, b + 2, b + 3>>]))
   /\ fidc' = fidc + 1 /\ nc' = nc + 1
   /\ UNCHANGED <<scope, cache, gn, stage, flags, out>>
+CloseLoopNew(r, sc) ==
+  LET p == Cur.pend
+      kk == ToString(p.k)
+      \* the returned tuple evaluates op.Identity(cn) first: one more node of the body graph
+      ia == <<AV(p.ins[2])>>
+      st1 == AdaptArgs(Sigs["Identity"], ia, 1, St0(Cur, vals, cache, gn))
+      e1 == EmitNode("Identity", "Identity", "", st1, 1, DefSpec, TRUE, <<vals[p.ins[2]].ev>>, <<>>)
+      co == e1.ov[1]
+      idstmt == Stmt(p.k, "op", "Identity", ia, <<"">>, NoAt, e1.ov, DefSpec, 0, <<>>, 0, "", "")
+      res == IF sc = 0 THEN <<co, r>> ELSE <<co, r, sc>>
+      v1 == RenameV(RenameV(e1.vals, co, "co" \o kk), r, "so" \o kk)
+      v2 == IF sc = 0 THEN v1 ELSE RenameV(v1, sc, "sc" \o kk)
+      blk == Blk(p.ins, Append(Cur.stmts, idstmt), res, e1.nodes)
+      ev == [k \in 1..K |-> LoopIter(blk, EnvNow(v2, k), 0, p.trip, vals[p.a].ev[k], <<>>)]
+      ot == IF sc = 0 THEN <<[k \in 1..K |-> ev[k][1]]>>
+            ELSE <<[k \in 1..K |-> ev[k][1]], [k \in 1..K |-> IF ev[k][3] THEN ERR ELSE StackT(ev[k][2])]>>
+      args == <<AL("i" \o ToString(p.trip)), AL("bT"), AV(p.a)>>
+      os == IF sc = 0 THEN DefSpec ELSE [m |-> "cnt", names |-> <<>>]
+      ok == /\ \A k \in 1..K : SameTS(vals[r].ev[k], vals[p.a].ev[k])
+            /\ \A i \in 1..Len(ot) : \A k \in 1..K : OkT(ot[i][k])
+      st == AdaptArgs(Sigs["Loop"], args, 1, St0(Parent, v2, e1.cache, e1.gn))
+      e == EmitNode("Loop", "Loop", "", st, Len(ot), os, Tk(args) /\ \A i \in 1..Len(res) : v2[res[i]].tk, ot, <<blk.g>>)
+      stmt == Stmt(p.k, "loop", "Loop", args, Pdt(Sigs["Loop"], args), NoAt, e.ov, os, 0, <<StmtBlk(blk)>>, 0, "", "")
+  IN IF ~ok THEN [ok |-> FALSE]
+     ELSE [ok |-> TRUE, vals |-> e.vals, cache |-> e.cache, gn |-> e.gn,
+           frames |-> PopTo([Parent EXCEPT !.nodes = e.nodes, !.nn = e.nn, !.stmts = Append(@, stmt)])]
 CloseLoop(r, sc) ==
   /\ stage = "build" /\ Cur.kind = "loop" /\ Len(scope) = Cur.sd /\ r \in Produced
   /\ (sc = 0 \/ (sc \in Produced /\ sc # r /\ Cur.pend.trip >= 1))
-  /\ LET p == Cur.pend
-         kk == ToString(p.k)
-         \* the returned tuple evaluates op.Identity(cn) first: one more node of the body graph
-         ia == <<AV(p.ins[2])>>
-         st1 == AdaptArgs(Sigs["Identity"], ia, 1, St0(Cur, vals, cache, gn))
-         e1 == EmitNode("Identity", "Identity", "", st1, 1, DefSpec, TRUE, <<vals[p.ins[2]].ev>>, <<>>)
-         co == e1.ov[1]
-         idstmt == Stmt(p.k, "op", "Identity", ia, <<"">>, NoAt, e1.ov, DefSpec, 0, <<>>, 0, "", "")
-         res == IF sc = 0 THEN <<co, r>> ELSE <<co, r, sc>>
-         v1 == RenameV(RenameV(e1.vals, co, "co" \o kk), r, "so" \o kk)
-         v2 == IF sc = 0 THEN v1 ELSE RenameV(v1, sc, "sc" \o kk)
-         blk == Blk(p.ins, Append(Cur.stmts, idstmt), res, e1.nodes)
-         ev == [k \in 1..K |-> LoopIter(blk, EnvNow(v2, k), 0, p.trip, vals[p.a].ev[k], <<>>)]
-         ot == IF sc = 0 THEN <<[k \in 1..K |-> ev[k][1]]>>
-               ELSE <<[k \in 1..K |-> ev[k][1]], [k \in 1..K |-> IF ev[k][3] THEN ERR ELSE StackT(ev[k][2])]>>
-         args == <<AL("i" \o ToString(p.trip)), AL("bT"), AV(p.a)>>
-     IN /\ \A k \in 1..K : SameTS(vals[r].ev[k], vals[p.a].ev[k])
-        /\ \A i \in 1..Len(ot) : \A k \in 1..K : OkT(ot[i][k])
-        /\ LET st == AdaptArgs(Sigs["Loop"], args, 1, St0(Parent, v2, e1.cache, e1.gn))
-               e == EmitNode("Loop", "Loop", "", st, Len(ot), IF sc = 0 THEN DefSpec ELSE [m |-> "cnt", names |-> <<>>],
-                             Tk(args) /\ \A i \in 1..Len(res) : v2[res[i]].tk, ot, <<blk.g>>)
-               stmt == Stmt(p.k, "loop", "Loop", args, Pdt(Sigs["Loop"], args), NoAt, e.ov, IF sc = 0 THEN DefSpec ELSE [m |-> "cnt", names |-> <<>>], 0, <<StmtBlk(blk)>>, 0, "", "")
-           IN /\ vals' = e.vals /\ cache' = e.cache /\ gn' = e.gn
-              /\ frames' = PopTo([Parent EXCEPT !.nodes = e.nodes, !.nn = e.nn, !.stmts = Append(@, stmt)])
+  /\ \E n \in {CloseLoopNew(r, sc)} : n.ok /\ vals' = n.vals /\ cache' = n.cache /\ gn' = n.gn /\ frames' = n.frames
   /\ UNCHANGED <<scope, nc, fidc, stage, flags, out>>
 
 \* Scan(init, xs, num_scan_inputs=1): body (st, xi) -> (new st, scan output)
@@ -412,24 +422,27 @@ OpenScan(init, xs) ==
         /\ frames' = Append(frames, NewFrame("scan", [NoPend EXCEPT !.k = nc, !.a = init, !.b = xs, !.ins = <<b + 1, b + 2>>]))
   /\ fidc' = fidc + 1 /\ nc' = nc + 1
   /\ UNCHANGED <<scope, cache, gn, stage, flags, out>>
+CloseScanNew(r, sc) ==
+  LET p == Cur.pend
+      kk == ToString(p.k)
+      v2 == RenameV(RenameV(vals, r, "so" \o kk), sc, "sc" \o kk)
+      blk == Blk(p.ins, Cur.stmts, <<r, sc>>, Cur.nodes)
+      ev == [k \in 1..K |-> ScanIter(blk, EnvNow(v2, k), 0, vals[p.b].ev[k], vals[p.a].ev[k], <<>>)]
+      ot == <<[k \in 1..K |-> ev[k][1]], [k \in 1..K |-> IF ev[k][3] THEN ERR ELSE StackT(ev[k][2])]>>
+      args == <<AV(p.a), AV(p.b)>>
+      at == [num_scan_inputs |-> 1]
+      os == [m |-> "cnt", names |-> <<>>]
+      ok == /\ \A k \in 1..K : SameTS(vals[r].ev[k], vals[p.a].ev[k])
+            /\ \A i \in 1..2 : \A k \in 1..K : OkT(ot[i][k])
+      st == AdaptArgs(Sigs["Scan"], args, 1, St0(Parent, v2, cache, gn))
+      e == EmitNode("Scan", "Scan", "", st, 2, os, Tk(args) /\ vals[r].tk /\ vals[sc].tk, ot, <<blk.g>>)
+      stmt == Stmt(p.k, "scan", "Scan", args, <<"", "">>, at, e.ov, os, 0, <<StmtBlk(blk)>>, 0, "", "")
+  IN IF ~ok THEN [ok |-> FALSE]
+     ELSE [ok |-> TRUE, vals |-> e.vals, cache |-> e.cache, gn |-> e.gn,
+           frames |-> PopTo([Parent EXCEPT !.nodes = e.nodes, !.nn = e.nn, !.stmts = Append(@, stmt)])]
 CloseScan(r, sc) ==
   /\ stage = "build" /\ Cur.kind = "scan" /\ Len(scope) = Cur.sd /\ r \in Produced /\ sc \in Produced /\ sc # r
-  /\ LET p == Cur.pend
-         kk == ToString(p.k)
-         v2 == RenameV(RenameV(vals, r, "so" \o kk), sc, "sc" \o kk)
-         blk == Blk(p.ins, Cur.stmts, <<r, sc>>, Cur.nodes)
-         ev == [k \in 1..K |-> ScanIter(blk, EnvNow(v2, k), 0, vals[p.b].ev[k], vals[p.a].ev[k], <<>>)]
-         ot == <<[k \in 1..K |-> ev[k][1]], [k \in 1..K |-> IF ev[k][3] THEN ERR ELSE StackT(ev[k][2])]>>
-         args == <<AV(p.a), AV(p.b)>>
-         at == [num_scan_inputs |-> 1]
-         os == [m |-> "cnt", names |-> <<>>]
-     IN /\ \A k \in 1..K : SameTS(vals[r].ev[k], vals[p.a].ev[k])
-        /\ \A i \in 1..2 : \A k \in 1..K : OkT(ot[i][k])
-        /\ LET st == AdaptArgs(Sigs["Scan"], args, 1, St0(Parent, v2, cache, gn))
-               e == EmitNode("Scan", "Scan", "", st, 2, os, Tk(args) /\ vals[r].tk /\ vals[sc].tk, ot, <<blk.g>>)
-               stmt == Stmt(p.k, "scan", "Scan", args, <<"", "">>, at, e.ov, os, 0, <<StmtBlk(blk)>>, 0, "", "")
-           IN /\ vals' = e.vals /\ cache' = e.cache /\ gn' = e.gn
-              /\ frames' = PopTo([Parent EXCEPT !.nodes = e.nodes, !.nn = e.nn, !.stmts = Append(@, stmt)])
+  /\ \E n \in {CloseScanNew(r, sc)} : n.ok /\ vals' = n.vals /\ cache' = n.cache /\ gn' = n.gn /\ frames' = n.frames
   /\ UNCHANGED <<scope, nc, fidc, stage, flags, out>>
 
 -----------------------------------------------------------------------------
@@ -446,14 +459,17 @@ FnResults(f, args, amode) ==
   [k \in 1..K |-> FSem(Funcs[f].tag, ArgTs(SigF(Len(args)), args, k), IF amode = "omit" THEN Funcs[f].default ELSE 2)]
 FnValid(f, args, amode) == LET r == FnResults(f, args, amode) IN \A k \in 1..K : \A i \in 1..Len(r[k]) : OkT(r[k][i])
 
-CallFn(f, args, amode, os) ==
+CallFnNew(f, args, amode, os) ==
   LET fd == Funcs[f]
       st == AdaptArgs(SigF(Len(args)), args, 1, St0(Cur, vals, cache, gn))
       ot == Transp(FnResults(f, args, amode))
       e == EmitNode(fd.name, fd.name, fd.domain, st, fd.nout, os, FALSE, ot, <<>>)      \* no inference through a function node
       stmt == Stmt(nc, "call", fd.name, args, Pdt(SigF(Len(args)), args), FnAt(amode), e.ov, os, 0, <<>>, f, amode, "")
-  IN /\ vals' = e.vals /\ cache' = e.cache /\ gn' = e.gn /\ nc' = nc + 1
-     /\ frames' = SetCur([Cur EXCEPT !.nodes = e.nodes, !.nn = e.nn, !.stmts = Append(@, stmt)])
+  IN [vals |-> e.vals, cache |-> e.cache, gn |-> e.gn,
+      frames |-> SetCur([Cur EXCEPT !.nodes = e.nodes, !.nn = e.nn, !.stmts = Append(@, stmt)])]
+CallFn(f, args, amode, os) ==
+  \E n \in {CallFnNew(f, args, amode, os)} :
+     /\ vals' = n.vals /\ cache' = n.cache /\ gn' = n.gn /\ nc' = nc + 1 /\ frames' = n.frames
      /\ UNCHANGED <<scope, fidc, stage, flags, out>>
 DoCallFn == /\ MayCall /\ "call" \in Kinds
             /\ \E f \in Pick(1..Len(Funcs)) : \E am \in Pick(AModes(Funcs[f])) :
@@ -480,7 +496,7 @@ InlineNodes(fd, j, st, mp, nm, ot) ==      \* nm: [sc2, pi, pd, os]; ot: tensors
                                           THEN [v |-> base + (CHOOSE o \in 1..Len(nd.outs) : nd.outs[o][2] = x), c |-> ""] ELSE mp[x]]
        IN InlineNodes(fd, j + 1, [st EXCEPT !.nodes = Append(@, node), !.nn = @ + 1, !.gn = @ + 1, !.vals = @ \o nv], mp2, nm, ot)
 
-InlineFn(f, args, amode, pfx, os) ==
+InlineFnNew(f, args, amode, pfx, os) ==
   LET fd == Funcs[f]
       raw == amode = "py" \/ \E i \in 1..Len(args) : args[i].a = "l"
       st0 == AdaptArgs(SigF(Len(args)), args, 1, St0(Cur, vals, cache, gn))    \* design: arguments adapted as in call()
@@ -489,15 +505,19 @@ InlineFn(f, args, amode, pfx, os) ==
       pd == NodePrefix(sc2) \o fd.name \o "_node_" \o ToString(st0.gn) \o "/"
       mp0 == [x \in 1..fd.nvals |-> IF x <= Len(args) THEN [v |-> st0.iv[x], c |-> st0.cn[x]] ELSE [v |-> 0, c |-> ""]]
       ot == Transp(FnResults(f, args, amode))
-      r == InlineNodes(fd, 1, [st0 EXCEPT !.cn = <<>>, !.iv = <<>>] @@ [tk |-> Tk(args) /\ ~(amode = "omit" /\ fd.hasattr /\ Dev("inline_default_attr_dropped"))], mp0, [sc2 |-> sc2, pi |-> pi, pd |-> pd, os |-> os], ot)
+      tk == Tk(args) /\ ~(amode = "omit" /\ fd.hasattr /\ Dev("inline_default_attr_dropped"))
+      r == InlineNodes(fd, 1, [st0 EXCEPT !.cn = <<>>, !.iv = <<>>] @@ [tk |-> tk], mp0, [sc2 |-> sc2, pi |-> pi, pd |-> pd, os |-> os], ot)
       ovs == [o \in 1..fd.nout |-> r.mp[fd.outputs[o]].v]
       stmt == Stmt(nc, "inline", fd.name, args, Pdt(SigF(Len(args)), args), FnAt(amode), ovs, os, 0, <<>>, f, amode, pfx)
-  IN /\ (raw => Depth = 1 /\ scope = <<>> /\ Coin(4))
-     /\ vals' = r.st.vals /\ cache' = r.st.cache /\ gn' = r.st.gn /\ nc' = nc + 1
-     /\ frames' = SetCur([Cur EXCEPT !.nodes = r.st.nodes, !.nn = r.st.nn, !.stmts = Append(@, stmt)])
-     /\ flags' = flags \cup (IF raw THEN {"inline_raw_python_args"} ELSE {})
-                       \cup (IF amode = "omit" /\ fd.hasattr THEN {"inline_default_attr_dropped"} ELSE {})
-     /\ stage' = IF raw THEN "final" ELSE stage         \* the code raises here: nothing can follow
+  IN [raw |-> raw, vals |-> r.st.vals, cache |-> r.st.cache, gn |-> r.st.gn,
+      frames |-> SetCur([Cur EXCEPT !.nodes = r.st.nodes, !.nn = r.st.nn, !.stmts = Append(@, stmt)]),
+      flags |-> flags \cup (IF raw THEN {"inline_raw_python_args"} ELSE {})
+                      \cup (IF amode = "omit" /\ fd.hasattr THEN {"inline_default_attr_dropped"} ELSE {})]
+InlineFn(f, args, amode, pfx, os) ==
+  \E n \in {InlineFnNew(f, args, amode, pfx, os)} :
+     /\ (n.raw => Depth = 1 /\ scope = <<>> /\ Coin(4))
+     /\ vals' = n.vals /\ cache' = n.cache /\ gn' = n.gn /\ nc' = nc + 1 /\ frames' = n.frames /\ flags' = n.flags
+     /\ stage' = IF n.raw THEN "final" ELSE stage         \* the code raises here: nothing can follow
      /\ UNCHANGED <<scope, fidc, out>>
 DoInlineFn == /\ MayCall /\ "inline" \in Kinds
               /\ \E f \in Pick(1..Len(Funcs)) : \E am \in Pick(AModes(Funcs[f])) :
@@ -564,30 +584,33 @@ SortedSeq(S) == IF S = {} THEN <<>> ELSE LET m == CHOOSE x \in S : \A y \in S : 
 RECURSIVE UsedIn(_)
 UsedIn(ss) == IF ss = <<>> THEN {}
   ELSE LET s == Head(ss) IN {s.args[i].v : i \in 1..Len(s.args)} \cup UNION {UsedIn(s.subs[j].body) : j \in 1..Len(s.subs)} \cup UsedIn(Tail(ss))
+FinishOut ==
+  LET main == frames[1]
+      used == UsedIn(main.stmts)
+      leaves == SortedSeq({v \in 1..Len(vals) : vals[v].fr = 1 /\ ~vals[v].hid /\ v \notin used})
+      exp == [k \in 1..K |-> LET env == EvalStmts(main.stmts, [v \in 1..(Len(vals) + 1) |-> IF v <= NInputs THEN vals[v].ev[k] ELSE IF v <= Len(vals) THEN ERR ELSE OKMARK])
+                             IN [i \in 1..Len(leaves) |-> IF Poisoned(env) THEN ERR ELSE env[leaves[i]]]]
+      ok == leaves # <<>> /\ \A k \in 1..K : \A i \in 1..Len(leaves) : OkT(exp[k][i])
+      gi == GraphOK(main.nodes, leaves, FALSE)
+      gd == GraphOK(main.nodes, leaves, TRUE)
+      dropped == "inline_default_attr_dropped" \in flags /\ Dev("inline_default_attr_dropped")
+      raised == "inline_raw_python_args" \in flags /\ Dev("inline_raw_python_args")
+      gimpl == IF Dev("subgraph_name_reuse") THEN gi ELSE gd
+  IN IF ~ok THEN [ok |-> FALSE]
+     ELSE [ok |-> TRUE, out |->
+            [prog |-> main.stmts, outs |-> leaves, exp |-> exp,
+             consistent |-> \A k \in 1..K : \A i \in 1..Len(leaves) : exp[k][i] = vals[leaves[i]].ev[k],
+             names |-> [v \in 1..Len(vals) |-> [nm |-> vals[v].nm, dn |-> vals[v].dn, hid |-> vals[v].hid, dt |-> vals[v].dt, tk |-> vals[v].tk,
+                                                   shape |-> vals[v].ev[1].shape]],
+             nodes |-> main.nodes, inits |-> cache,
+             impl |-> gimpl, design |-> gd,
+             outcome |-> IF raised THEN "raise" ELSE IF dropped \/ ~Loadable(gimpl) THEN "invalid" ELSE "ok",
+             uniq |-> AllOK(gimpl),
+             why |-> (flags \cap Deviations) \cup (IF Dev("subgraph_name_reuse") /\ ~AllOK(gi) /\ AllOK(gd) THEN {"subgraph_name_reuse"} ELSE {})]]
 Finish ==
   /\ stage \in {"build", "final"} /\ Depth = 1 /\ scope = <<>> /\ nc >= 1
   /\ (Sim => (nc >= MaxCalls \/ stage = "final" \/ (nc >= 2 /\ RandomElement(1..4) = 1)))
-  /\ LET main == frames[1]
-         used == UsedIn(main.stmts)
-         leaves == SortedSeq({v \in 1..Len(vals) : vals[v].fr = 1 /\ ~vals[v].hid /\ v \notin used})
-         exp == [k \in 1..K |-> LET env == EvalStmts(main.stmts, [v \in 1..(Len(vals) + 1) |-> IF v <= NInputs THEN vals[v].ev[k] ELSE IF v <= Len(vals) THEN ERR ELSE OKMARK])
-                                IN [i \in 1..Len(leaves) |-> IF Poisoned(env) THEN ERR ELSE env[leaves[i]]]]
-         gi == GraphOK(main.nodes, leaves, FALSE)
-         gd == GraphOK(main.nodes, leaves, TRUE)
-         dropped == "inline_default_attr_dropped" \in flags /\ Dev("inline_default_attr_dropped")
-         raised == "inline_raw_python_args" \in flags /\ Dev("inline_raw_python_args")
-         gimpl == IF Dev("subgraph_name_reuse") THEN gi ELSE gd
-     IN /\ leaves # <<>>
-        /\ \A k \in 1..K : \A i \in 1..Len(leaves) : OkT(exp[k][i])
-        /\ out' = [prog |-> main.stmts, outs |-> leaves, exp |-> exp,
-                   consistent |-> \A k \in 1..K : \A i \in 1..Len(leaves) : exp[k][i] = vals[leaves[i]].ev[k],
-                   names |-> [v \in 1..Len(vals) |-> [nm |-> vals[v].nm, dn |-> vals[v].dn, hid |-> vals[v].hid, dt |-> vals[v].dt, tk |-> vals[v].tk,
-                                                         shape |-> vals[v].ev[1].shape]],
-                   nodes |-> main.nodes, inits |-> cache,
-                   impl |-> gimpl, design |-> gd,
-                   outcome |-> IF raised THEN "raise" ELSE IF dropped \/ ~Loadable(gimpl) THEN "invalid" ELSE "ok",
-                   uniq |-> AllOK(gimpl),
-                   why |-> (flags \cap Deviations) \cup (IF Dev("subgraph_name_reuse") /\ ~AllOK(gi) /\ AllOK(gd) THEN {"subgraph_name_reuse"} ELSE {})]
+  /\ \E n \in {FinishOut} : n.ok /\ out' = n.out
   /\ stage' = "done"
   /\ UNCHANGED <<vals, frames, scope, cache, nc, gn, fidc, flags>>
 
